@@ -345,6 +345,135 @@ theorem truncateMax_fallback_no_bound (l : Nat) (data : List Nat) (hd : Bytes da
 
 example : (truncateMaxValue false (some 2) [255, 255, 7]).2 = false := by decide
 
+/-- `str::from_utf8` (the strict decoder of the model) accepts exactly the encodings of
+sequences of Unicode scalar values. -/
+theorem validUtf8B_iff (data : List Nat) : validUtf8B data = true ↔ ValidUtf8 data := by
+  unfold validUtf8B ValidUtf8
+  constructor
+  · intro h
+    cases hd : decodeChars data with
+    | none => rw [hd] at h; simp at h
+    | some cs =>
+      obtain ⟨e1, e2⟩ := decodeChars_sound data.length data cs (Nat.le_refl _) hd
+      exact ⟨cs, e2, e1⟩
+  · rintro ⟨cs, hcs, rfl⟩
+    rw [decodeChars_encode cs hcs]; rfl
+
+/-- **`truncate_max_value` returns an upper bound — every column kind, every truncation
+length, every value** (UTF-8 path: `truncate_and_increment_utf8` / `increment_utf8`;
+binary path: `increment`; fallback: the value itself). -/
+theorem truncateMax_ge (utf8 : Bool) (tl : Option Nat) (data : List Nat) :
+    lexLe data (truncateMaxValue utf8 tl data).1 = true := by
+  by_cases hbin : utf8 = false ∨ validUtf8B data = false
+  · exact truncateMax_ge_binary utf8 tl data hbin
+  · have hu : utf8 = true := by cases utf8 <;> simp_all
+    have hv : validUtf8B data = true := by cases h : validUtf8B data <;> simp_all
+    obtain ⟨cs, hcs, rfl⟩ := (validUtf8B_iff data).1 hv
+    have hrefl : lexLe (utf8Encode cs) (utf8Encode cs) = true := by simp [lexLe, lexLt_irrefl]
+    unfold truncateMaxValue
+    cases tl.filter (fun l => decide ((utf8Encode cs).length > l)) with
+    | none => exact hrefl
+    | some l =>
+      simp only [hu, hv, if_true]
+      cases hr : truncateAndIncrementUtf8 (utf8Encode cs) l with
+      | none => exact hrefl
+      | some r =>
+        have := (truncateAndIncrementUtf8_ok cs hcs l r hr).1
+        simp [lexLe, lexLt_asymm _ _ this]
+
+/-- **Truncated bounds of a UTF-8 column stay valid UTF-8** when the value is valid UTF-8. -/
+theorem truncate_results_valid_utf8 (tl : Option Nat) (data : List Nat) (hv : ValidUtf8 data) :
+    ValidUtf8 (truncateMinValue true tl data).1 ∧ ValidUtf8 (truncateMaxValue true tl data).1 := by
+  have hvb := (validUtf8B_iff data).2 hv
+  obtain ⟨cs, hcs, rfl⟩ := hv
+  constructor
+  · unfold truncateMinValue
+    cases tl.filter (fun l => decide ((utf8Encode cs).length > l)) with
+    | none => exact ⟨cs, hcs, rfl⟩
+    | some l =>
+      simp only [hvb, if_true]
+      cases hr : truncateUtf8 (utf8Encode cs) l with
+      | none => exact ⟨cs, hcs, rfl⟩
+      | some t =>
+        obtain ⟨⟨k, hk⟩, _, _⟩ := truncateUtf8_ok cs l t hr
+        exact ⟨cs.take k, fun c hc => hcs c (List.mem_of_mem_take hc), hk⟩
+  · unfold truncateMaxValue
+    cases tl.filter (fun l => decide ((utf8Encode cs).length > l)) with
+    | none => exact ⟨cs, hcs, rfl⟩
+    | some l =>
+      simp only [hvb, if_true]
+      cases hr : truncateAndIncrementUtf8 (utf8Encode cs) l with
+      | none => exact ⟨cs, hcs, rfl⟩
+      | some r => exact (truncateAndIncrementUtf8_ok cs hcs l r hr).2.1
+
+/-- **A truncated bound respects the requested length.** -/
+theorem truncated_length_le (utf8 : Bool) (l : Nat) (data : List Nat) :
+    ((truncateMinValue utf8 (some l) data).2 = true → (truncateMinValue utf8 (some l) data).1.length ≤ l) ∧
+    ((truncateMaxValue utf8 (some l) data).2 = true → (truncateMaxValue utf8 (some l) data).1.length ≤ l) := by
+  by_cases hl : data.length > l
+  · have hf : (some l).filter (fun l => decide (data.length > l)) = some l := by simp [Option.filter, hl]
+    have htake : (data.take l).length ≤ l := by simp [List.length_take]; omega
+    constructor
+    · unfold truncateMinValue
+      rw [hf]
+      simp only
+      have key : ∀ t, (if utf8 = true then (if validUtf8B data = true then truncateUtf8 data l else some (data.take l))
+          else some (data.take l)) = some t → t.length ≤ l := by
+        intro t ht
+        by_cases hu : utf8 = true
+        · by_cases hv : validUtf8B data = true
+          · simp only [hu, hv, if_true] at ht
+            obtain ⟨cs, hcs, rfl⟩ := (validUtf8B_iff data).1 hv
+            exact (truncateUtf8_ok cs l t ht).2.1
+          · simp only [hu, hv, if_true, Bool.false_eq_true, if_false, Option.some.injEq] at ht
+            subst ht; exact htake
+        · simp only [hu, Bool.false_eq_true, if_false, Option.some.injEq] at ht
+          subst ht; exact htake
+      generalize (if utf8 = true then (if validUtf8B data = true then truncateUtf8 data l else some (data.take l))
+          else some (data.take l)) = r at key
+      cases r with
+      | none => simp
+      | some t => intro _; exact key t rfl
+    · unfold truncateMaxValue
+      rw [hf]
+      simp only
+      have key : ∀ t, (if utf8 = true then (if validUtf8B data = true then truncateAndIncrementUtf8 data l else increment (data.take l))
+          else increment (data.take l)) = some t → t.length ≤ l := by
+        intro t ht
+        have hinc : increment (data.take l) = some t → t.length ≤ l := fun h => by
+          rw [(increment_upper _ t h).1]; exact htake
+        by_cases hu : utf8 = true
+        · by_cases hv : validUtf8B data = true
+          · simp only [hu, hv, if_true] at ht
+            obtain ⟨cs, hcs, rfl⟩ := (validUtf8B_iff data).1 hv
+            exact (truncateAndIncrementUtf8_ok cs hcs l t ht).2.2
+          · simp only [hu, hv, if_true, Bool.false_eq_true, if_false] at ht
+            exact hinc ht
+        · simp only [hu, Bool.false_eq_true, if_false] at ht
+          exact hinc ht
+      generalize (if utf8 = true then (if validUtf8B data = true then truncateAndIncrementUtf8 data l else increment (data.take l))
+          else increment (data.take l)) = r at key
+      cases r with
+      | none => simp
+      | some t => intro _; exact key t rfl
+  · have hf : (some l).filter (fun l => decide (data.length > l)) = none := by simp [Option.filter, hl]
+    constructor
+    · unfold truncateMinValue; rw [hf]; simp
+    · unfold truncateMaxValue; rw [hf]; simp
+
+/-- `increment_utf8` gives up (`None`, i.e. the untruncated value is kept) exactly when no
+char of the prefix has a successor that is a scalar value of the same UTF-8 width (U+7F,
+U+7FF, U+D7FF, U+FFFF, U+10FFFF): the code never widens a char and never jumps the surrogate
+gap, so this is conservative — sound, but a shorter bound may exist. -/
+theorem incrementUtf8_none_iff (cs : List Nat) : incrementUtf8 cs = none ↔
+    ∀ c ∈ cs, ¬ (isScalar (c + 1) = true ∧ lenUtf8 (c + 1) = lenUtf8 c) := by
+  unfold incrementUtf8
+  rw [incrementUtf8Rev_none]
+  simp
+
+example : incrementUtf8 [0x61, 0xD7FF, 0x10FFFF] = some [0x62] ∧ incrementUtf8 [0x7F, 0x7FF, 0xD7FF, 0xFFFF, 0x10FFFF] = none := by
+  decide
+
 /-! ## (4) boundary order -/
 
 /-- consecutive pages are non-decreasing in both min and max -/
